@@ -32,7 +32,7 @@ logging.getLogger("onnx_ir").setLevel(logging.ERROR)
 PROPERTY = "C10"
 LEVEL = "exploration"
 TIERS = {
-    "quick": {"wall": 29, "optimize_wall": 6, "chunk": 8, "shrink_budget": 150, "shrink_wall": 40},
+    "quick": {"max_runs": 1600, "optimize_runs": 320, "wall": 420, "optimize_wall": 180, "chunk": 8, "shrink_budget": 150, "shrink_wall": 40},
     "thorough": {"wall": 900, "optimize_wall": 120, "chunk": 8, "shrink_budget": 300, "shrink_wall": 120},
 }
 RULE = (
